@@ -242,6 +242,131 @@ static void do_fpregion(const J& g, W& w) {
     free_polys(out);
 }
 
+
+// ------------------------------------------------------------------ FlexPath circular bends
+// Centre curve of a polyline whose corners i with choice[i] = 1 are replaced by arcs of radius R
+// tangent to both legs, displaced sideways by `off` (to the left of the direction of travel);
+// returned as dense samples.
+static void bend_curve(const std::vector<Vec2>& sp, const std::vector<double>& tans,
+                       const std::vector<int>& choice, double R, double off, std::vector<Vec2>& cen) {
+    const int M = 600;
+    size_t n = sp.size();
+    auto emit = [&](Vec2 p, Vec2 dir) {
+        Vec2 nrm = Vec2{-dir.y, dir.x} * (1.0 / (dir.length() + 1e-300));
+        cen.push_back(p + nrm * off);
+    };
+    auto unit = [](Vec2 d) { return d * (1.0 / (d.length() + 1e-300)); };
+    auto left = [](Vec2 u) { return Vec2{-u.y, u.x}; };
+    // displaced position of an unbent corner: intersection of the two displaced legs
+    auto miter = [&](Vec2 corner, Vec2 u_in, Vec2 u_out) {
+        Vec2 n1 = left(u_in), n2 = left(u_out);
+        return corner + (n1 + n2) * (off / (1.0 + n1.inner(n2)));
+    };
+    for (size_t leg = 0; leg + 1 < n; leg++) {
+        Vec2 a = sp[leg], b = sp[leg + 1];
+        Vec2 d = b - a;
+        double len = d.length();
+        Vec2 u = d * (1.0 / len);
+        double t0 = (leg >= 1 && choice[leg - 1]) ? tans[leg - 1] : 0;          // consumed by the bend before
+        double t1 = (leg + 2 < n && choice[leg]) ? tans[leg] : 0;               // consumed by the bend after
+        Vec2 S = (leg >= 1 && !choice[leg - 1]) ? miter(a, unit(a - sp[leg - 1]), u) : (a + u * t0) + left(u) * off;
+        Vec2 E = (leg + 2 < n && !choice[leg]) ? miter(b, u, unit(sp[leg + 2] - b)) : (b - u * t1) + left(u) * off;
+        for (int i = 0; i <= M; i++) cen.push_back(S + (E - S) * ((double)i / M));
+        if (leg + 2 < n && choice[leg]) {
+            Vec2 c = sp[leg + 2] - b;
+            Vec2 v = c * (1.0 / c.length());
+            double cr = u.cross(v);
+            double dirn = cr < 0 ? -1 : 1;                                      // +1 left turn
+            Vec2 nu = Vec2{-u.y, u.x} * dirn;                                   // towards the arc centre
+            Vec2 ctr = (b - u * t1) + nu * R;
+            double a0 = atan2(-nu.y, -nu.x);
+            double theta = acos(fmax(-1.0, fmin(1.0, u.inner(v)))) * dirn;
+            for (int i = 0; i <= M; i++) {
+                double ang = a0 + theta * i / M;
+                Vec2 p = ctr + Vec2{cos(ang), sin(ang)} * R;
+                Vec2 tdir = Vec2{-sin(ang), cos(ang)} * dirn;
+                emit(p, tdir);
+            }
+        }
+    }
+}
+
+static void do_fpbend(const J& g, W& w) {
+    double tol = pow(10.0, -(double)g["tolk"].i());
+    double width = (double)g["w"].i() / 1000.0, off = (double)g["o"].i() / 1000.0;
+    double R = (double)g["r"].i() / 1000.0;
+    const J& sj = g["spine"];
+    std::vector<Vec2> sp;
+    for (size_t i = 0; i < sj.size(); i++) sp.push_back(Vec2{(double)sj[i][(size_t)0].i(), (double)sj[i][(size_t)1].i()});
+    Tag t = 0;
+    FlexPath f = {};
+    f.init(sp[0], 1, &width, &off, tol, &t);
+    for (size_t k = 1; k < sp.size(); k++) f.segment(sp[k], NULL, NULL, false);
+    f.elements[0].join_type = JoinType::Round;
+    f.elements[0].end_type = g["ends"].s() == "round" ? EndType::Round : EndType::Flush;
+    f.elements[0].bend_type = BendType::Circular;
+    f.elements[0].bend_radius = R;
+    Array<Polygon*> out = {};
+    ErrorCode e = f.to_polygons(false, 0, out);
+    w.kv("err", (int64_t)e).kv("npoly", (int64_t)out.count);
+    // legs and tangent lengths of the corners (milli units), for the admissibility rule
+    size_t nc = sp.size() - 2;
+    std::vector<double> tans(nc);
+    w.key("legs").begin_arr();
+    for (size_t i = 0; i + 1 < sp.size(); i++) w.i((int64_t)llround((sp[i + 1] - sp[i]).length() * 1000));
+    w.end_arr();
+    w.key("tans").begin_arr();
+    for (size_t i = 0; i < nc; i++) {
+        Vec2 u = sp[i + 1] - sp[i], v = sp[i + 2] - sp[i + 1];
+        double th = acos(fmax(-1.0, fmin(1.0, u.inner(v) / (u.length() * v.length()))));
+        tans[i] = R * tan(th / 2);
+        w.i((int64_t)llround(tans[i] * 1000));
+    }
+    w.end_arr();
+    // every choice of bent corners: samples' clearance from that centre curve
+    double hw = width / 2;
+    double xmin = 1e9, xmax = -1e9, ymin = 1e9, ymax = -1e9;
+    for (auto& p : sp) {
+        xmin = fmin(xmin, p.x); xmax = fmax(xmax, p.x); ymin = fmin(ymin, p.y); ymax = fmax(ymax, p.y);
+    }
+    std::vector<Vec2> qs;
+    for (int xi = (int)floor((xmin - 2) * 4); xi <= (int)ceil((xmax + 2) * 4); xi++)
+        for (int yi = (int)floor((ymin - 2) * 4); yi <= (int)ceil((ymax + 2) * 4); yi++)
+            qs.push_back(Vec2{(2 * xi + 1) / 8.0, (2 * yi + 1) / 8.0});
+    std::vector<int> in(qs.size(), 0);
+    if (out.count == 1)
+        for (size_t k = 0; k < qs.size(); k++) in[k] = inside_poly(out[0]->point_array, qs[k]) ? 1 : 0;
+    w.key("choices").begin_arr();
+    for (int mask = 0; mask < (1 << nc); mask++) {
+        std::vector<int> choice(nc);
+        for (size_t i = 0; i < nc; i++) choice[i] = (mask >> i) & 1;
+        std::vector<Vec2> cen;
+        bend_curve(sp, tans, choice, R, off, cen);
+        w.begin_obj().key("c").begin_arr();
+        for (size_t i = 0; i < nc; i++) w.i(choice[i]);
+        w.end_arr().key("samples").begin_arr();
+        for (size_t k = 0; k < qs.size(); k++) {
+            double best = 1e300;
+            size_t bi = 0;
+            for (size_t i = 0; i < cen.size(); i++) {
+                double d = (cen[i] - qs[k]).length_sq();
+                if (d < best) {
+                    best = d;
+                    bi = i;
+                }
+            }
+            double clr = sqrt(best) - hw;
+            if (fabs(clr) > 0.3) continue;
+            bool interior = bi > 5 && bi + 5 < cen.size();
+            int64_t cm = (int64_t)fmax(-1e6, fmin(1e6, clr >= 0 ? ceil(clr / (tol * 1e-3)) : floor(clr / (tol * 1e-3))));
+            w.begin_arr().i(in[k]).i(cm).i(interior ? 1 : 0).end_arr();
+        }
+        w.end_arr().end_obj();
+    }
+    w.end_arr();
+    free_polys(out);
+}
+
 // ------------------------------------------------------------------ RobustPath
 static Interpolation mk_ip(const J& ip, double prev_unused) {
     (void)prev_unused;
@@ -475,6 +600,11 @@ static void do_rpregion(const J& g, W& w) {
         grad = s.df(1.0);
     }
     r.elements[0].end_type = g["ends"].s() == "round" ? EndType::Round : EndType::Flush;
+    // optionally rotate the finished path by atan(3/4); the samples are rotated with it, so the
+    // clearances computed from the unrotated exact curve stay valid
+    bool rotated = g.has("rot") && g["rot"].i() != 0;
+    const double ca = 0.8, sa = 0.6;
+    if (rotated) r.rotate(atan2(sa, ca), Vec2{0, 0});
     Array<Polygon*> out = {};
     ErrorCode e = r.to_polygons(false, 0, out);
     w.kv("err", (int64_t)e).kv("npoly", (int64_t)out.count);
@@ -509,7 +639,8 @@ static void do_rpregion(const J& g, W& w) {
                 if (fabs(clr) > 0.3) continue;  // only the band around the outline is informative
                 bool interior = bi > 5 && bi + 5 < cen.size();
                 int64_t cm = (int64_t)fmax(-1e6, fmin(1e6, clr >= 0 ? ceil(clr / (tol * 1e-3)) : floor(clr / (tol * 1e-3))));
-                w.begin_arr().i(inside_poly(out[0]->point_array, q) ? 1 : 0).i(cm).i(interior ? 1 : 0).end_arr();
+                Vec2 qr = rotated ? Vec2{ca * q.x - sa * q.y, sa * q.x + ca * q.y} : q;
+                w.begin_arr().i(inside_poly(out[0]->point_array, qr) ? 1 : 0).i(cm).i(interior ? 1 : 0).end_arr();
             }
     }
     w.end_arr();
@@ -528,6 +659,7 @@ int main(int argc, char** argv) {
         const std::string& k = g["k"].s();
         if (k == "fpbook") do_fpbook(g, w);
         else if (k == "fpregion") do_fpregion(g, w);
+        else if (k == "fpbend") do_fpbend(g, w);
         else if (k == "rpbook") do_rpbook(g, w);
         else if (k == "rpxform") do_rpxform(g, w);
         else if (k == "rpcmd") do_rpcmd(g, w);
